@@ -372,6 +372,7 @@ func histories(r *lib.Run, rng *lib.Rand) (files []savedFile) {
 		}
 		classes := map[string]bool{}
 		stale := map[bindingT]bool{}
+		var rebindingKept []bindingT // bindings the file rightly keeps for clients that are re-negotiating (state discover)
 		for step := 0; step < depth; step++ {
 			cl := clients[rng.Intn(len(clients))]
 			k := rng.Intn(10)
@@ -388,7 +389,6 @@ func histories(r *lib.Run, rng *lib.Rand) (files []savedFile) {
 						sv.xid++
 						a4, h4 := a.As4(), c.nic.host.As4()
 						sv.exchange(cl.mac, zero4, bcast4, bcastMAC, mkDHCP(4, sv.xid, netip.Addr{}, cl.mac, append(cl.opts(), optT{50, a4[:]}, optT{54, h4[:]})), sv.xid)
-						delete(acked, lib.Hex(cl.key()))
 						k, opName = 99, "decline"
 					case "release": // DHCPRELEASE: the server keeps the lease (handleRelease only logs)
 						sv.xid++
@@ -399,25 +399,21 @@ func histories(r *lib.Run, rng *lib.Rand) (files []savedFile) {
 						sv.xid++
 						a4, o4 := a.As4(), c.nic.router.As4()
 						sv.exchange(cl.mac, zero4, bcast4, bcastMAC, mkDHCP(3, sv.xid, netip.Addr{}, cl.mac, append(cl.opts(), optT{50, a4[:]}, optT{54, o4[:]})), sv.xid)
-						delete(acked, lib.Hex(cl.key()))
 						k, opName = 99, "select-other"
 					case "tick": // MinuteTicker after every lease has expired
 						sv.h.MinuteTicker(time.Now().Add(6 * time.Hour))
-						for key := range acked {
-							delete(acked, key)
-						}
 						k, opName = 99, "tick"
 					case "resubnet": // the client becomes captured: its next message re-creates the lease on net2
-						sv.s.Capture(cl.mac)
-						isCaptured[lib.Hex(cl.mac)] = true
-						captured = append(captured, cl.mac)
-						capTok = macsTok(captured)
+						if !isCaptured[lib.Hex(cl.mac)] {
+							sv.s.Capture(cl.mac)
+							isCaptured[lib.Hex(cl.mac)] = true
+							captured = append(captured, cl.mac)
+							capTok = macsTok(captured)
+						}
 						sv.renew(cl, a)
-						delete(acked, lib.Hex(cl.key()))
 						k, opName = 99, "resubnet"
 					case "rediscover": // DISCOVER of a bound client: lease in state discover, the binding stays on disk
 						sv.discoverOnly(cl, netip.Addr{})
-						delete(acked, lib.Hex(cl.key()))
 						k, opName = 99, "rediscover"
 					}
 				}
@@ -425,6 +421,18 @@ func histories(r *lib.Run, rng *lib.Rand) (files []savedFile) {
 			switch {
 			case k == 99:
 				classes[opName] = true
+				// what the op did to the bindings is read from the table (the op may have been refused)
+				still := map[string]bool{}
+				for _, l := range sv.h.VerifLeases() {
+					if l.State == dhcp.StateAllocated {
+						still[lib.Hex(l.ClientID)] = true
+					}
+				}
+				for key := range acked {
+					if !still[key] {
+						delete(acked, key)
+					}
+				}
 			case k < 6: // acquire, sometimes with a requested address (inside the subnet the client belongs to)
 				want := netip.Addr{}
 				if rng.Chance(15) {
@@ -510,7 +518,7 @@ func histories(r *lib.Run, rng *lib.Rand) (files []savedFile) {
 				}
 			}
 			// after EVERY step: the Allocated records on disk against the Allocated leases in memory
-			stale = checkDisk(r, sv, fname, opName, stale)
+			stale, rebindingKept = checkDisk(r, sv, fname, opName, stale)
 		}
 		// the acknowledged bindings according to the table (hook), cross-checked with the ACK frames seen
 		var ackedTable []bindingT
@@ -556,7 +564,7 @@ func histories(r *lib.Run, rng *lib.Rand) (files []savedFile) {
 		if len(stale) > 0 {
 			// the file was stale at the end (reported per step): the restart restores what the file says
 			r.Stat("hist.restart-from-stale-file", 1)
-		} else if !sameBindings(b1.bindings, ackedSeen) {
+		} else if !sameBindings(b1.bindings, append(append([]bindingT{}, ackedSeen...), rebindingKept...)) {
 			key := "restart-bindings-differ"
 			for _, b := range ackedSeen {
 				in := false
@@ -711,12 +719,12 @@ var staleReported sync.Map
 //	stale   (on disk, not in memory): a binding a restart would resurrect               -> stale-file-after-<op>,
 //	  reported for the op after which the stale set grew; a stale record whose lease is in state discover with the
 //	  same address (a bound client re-negotiating) is counted, not reported: the disk is right to keep it.
-func checkDisk(r *lib.Run, sv *serverT, fname, op string, prev map[bindingT]bool) map[bindingT]bool {
+func checkDisk(r *lib.Run, sv *serverT, fname, op string, prev map[bindingT]bool) (map[bindingT]bool, []bindingT) {
 	txt, _ := os.ReadFile(fname)
 	toks := docTokens(txt)
 	if !isDoc(toks[0]) {
 		r.Viol("file-unreadable-after-step", "after "+op+": the lease file reads as "+toks[0], "")
-		return prev
+		return prev, nil
 	}
 	disk := map[bindingT]bool{}
 	for _, t := range toks[3:] {
@@ -743,10 +751,12 @@ func checkDisk(r *lib.Run, sv *serverT, fname, op string, prev map[bindingT]bool
 		}
 	}
 	stale := map[bindingT]bool{}
+	var kept []bindingT
 	for b := range disk {
 		switch {
 		case mem[b]:
 		case rebinding[b]:
+			kept = append(kept, b)
 			r.Stat("hist.disk.rebinding-client-kept", 1)
 		default:
 			stale[b] = true
@@ -759,5 +769,5 @@ func checkDisk(r *lib.Run, sv *serverT, fname, op string, prev map[bindingT]bool
 			}
 		}
 	}
-	return stale
+	return stale, kept
 }
